@@ -8,6 +8,7 @@ import time
 import traceback
 
 from . import contract as C
+from . import core
 
 CONTRACT_MODULES = None
 
@@ -33,7 +34,7 @@ def _job(args):
         r["cls"] = cls_name
         r["mutant"] = mutant[0] if mutant else None
         return r
-    except LookupError as e:
+    except core.FunctionMissing as e:
         return dict(cls=cls_name, structure=label, mutant=mutant[0] if mutant else None, error="missing: %s" % e, obligations={}, paths={}, solver_s=0, queries=0, backends={}, wall_s=0, contract=cls_name, sha="", lineno=0, vacuous=False)
     except Exception:
         return dict(cls=cls_name, structure=label, mutant=mutant[0] if mutant else None, error="crash: " + traceback.format_exc(), obligations={}, paths={}, solver_s=0, queries=0, backends={}, wall_s=0, contract=cls_name, sha="", lineno=0, vacuous=False)
